@@ -213,7 +213,7 @@ example : relOps (ltOf .kp) (eqOf .kp) [2, 7] [3, 9] = .ok [false, true, true, t
 `v.resize(n, v[i])`, `s.push(s.top())`: [sequence.reqmts] requires the result of the same call with a copy of the
 element taken before the call.  The model reads the argument through the reference at the moment the code reads it
 (`Arg`, `rdArg`); the theorems say that this moment is early enough in every one of these members.  The operations
-are part of `Op` (`pushA`, `pushTop`, `insertA`, `insertFillA`, `resizeValA`), hence of `step_refines` and
+are part of `Op` (`pushA`, `pushTop`, `insertA`, `insertFillA`, `resizeValA`; inplace_vector: `tryPushA`, `uncheckedA`), hence of `step_refines` and
 `history_refines` below. -/
 
 /-- the members with a reference argument (`…A`), given a value that lives outside the vector, are the plain members -/
@@ -263,6 +263,18 @@ theorem resize_alias_eq (cap : Nat) (d : V) (n i : Nat) (hc : cap < 2 ^ 64) (hca
 
 example : resizeValA 6 [7, 8] 5 (.elem 0) = .ok [7, 8, 7, 7, 7] := by decide
 
+/-- inplace_vector: `c.unchecked_push_back(c[i])` / `unchecked_emplace_back(c[i])` append the old value of element `i`
+    and return a reference to it; `c.try_push_back(c[i])` / `try_emplace_back(c[i])` do the same, or return null and
+    change nothing when full; with a value from outside they are the plain members -/
+theorem ipv_push_alias_eq (cap : Nat) (d : V) (i : Nat) (hc : cap < 2 ^ 64) (hcap : d.length ≤ cap) (hi : i < d.length) :
+    (d.length < cap → ipvUncheckedA cap d (.elem i) = .ok (d ++ [d[i]], d[i]))
+      ∧ ipvTryA cap d (.elem i) = .ok (if d.length = cap then (d, none) else (d ++ [d[i]], some d[i]))
+      ∧ (∀ x, ipvUncheckedA cap d (.val x) = ipvUnchecked cap d x ∧ ipvTryA cap d (.val x) = ipvTry cap d x) :=
+  ⟨fun h => ipvUncheckedA_elem d i hc h hi, ipvTryA_elem d i hc hcap hi,
+   fun x => ⟨ipvUncheckedA_val cap d x, ipvTryA_val cap d x⟩⟩
+
+example : ipvTryA 3 [4, 5] (.elem 0) = .ok ([4, 5, 4], some 4) ∧ ipvTryA 2 [4, 5] (.elem 0) = .ok ([4, 5], none) := by decide
+
 /-- on the spec side an operation with an aliasing argument *is* the plain operation with the value the element had
     before the call -/
 theorem alias_spec (cap : Nat) (l : List Nat) (ov pos n i : Nat) (hi : i < l.length) :
@@ -270,7 +282,9 @@ theorem alias_spec (cap : Nat) (l : List Nat) (ov pos n i : Nat) (hi : i < l.len
       ∧ Spec.apply1 cap (.insertA ov pos i) l = Spec.apply1 cap (.insert1 ov pos l[i]) l
       ∧ Spec.apply1 cap (.insertFillA pos n i) l = Spec.apply1 cap (.insertFill pos n l[i]) l
       ∧ Spec.apply1 cap (.resizeValA n i) l = Spec.apply1 cap (.resizeVal n l[i]) l
-      ∧ Spec.apply1 cap (.pushTop ov) l = Spec.apply1 cap (.push ov l[l.length - 1]) l := by
+      ∧ Spec.apply1 cap (.pushTop ov) l = Spec.apply1 cap (.push ov l[l.length - 1]) l
+      ∧ Spec.apply1 cap (.tryPushA ov i) l = Spec.apply1 cap (.tryPush ov l[i]) l
+      ∧ Spec.apply1 cap (.uncheckedA ov i) l = Spec.apply1 cap (.unchecked ov l[i]) l := by
   simp [Spec.apply1, withElem_lt hi, withElem_lt (show l.length - 1 < l.length by omega)]
 
 /-- `v.assign(n, v[i])` is different: `clear()` runs first, `insert` then reads a destroyed element.  [sequence.reqmts]
@@ -433,6 +447,8 @@ example : Spec.validHist .ipv (Spec.SSys.init 1) [(0, .tryPush 0 5), (0, .tryPus
 example : Spec.validHist .sv (Spec.SSys.init 6 .kp)
     [(0, .assignRange [4, 2]), (0, .insertA 0 0 1), (0, .pushA 2 0), (0, .insertFillA 1 2 3), (0, .resizeValA 6 0),
      (1, .push 0 5), (1, .pushTop 0), (0, .cmp 1)] = true := by decide
+example : Spec.validHist .ipv (Spec.SSys.init 3) [(0, .tryPush 0 5), (0, .tryPushA 0 0), (0, .uncheckedA 2 1), (0, .tryPushA 2 2)] = true := by
+  decide
 example : Spec.validHist .stk (Spec.SSys.init 3 .kp) [(0, .push 0 4), (0, .pushTop 0), (1, .push 0 5), (0, .cmp 1)] = true := by
   decide
 -- a moved-from object has no specified size: `pop` on it is not a valid step by the standard's book-keeping
@@ -654,9 +670,10 @@ theorem ipv_missing_members :
 /-- … and the members it has -/
 theorem ipv_present_members :
     (∀ ov x, supports .ipv (.tryPush ov x) = true) ∧ (∀ ov x, supports .ipv (.unchecked ov x) = true)
+      ∧ (∀ ov i, supports .ipv (.tryPushA ov i) = true) ∧ (∀ ov i, supports .ipv (.uncheckedA ov i) = true)
       ∧ supports .ipv .pop = true ∧ supports .ipv .clear = true ∧ (∀ j, supports .ipv (.copyCtor j) = true)
       ∧ (∀ j, supports .ipv (.moveCtor j) = true) ∧ supports .ipv .dump = true := by
-  refine ⟨?_, ?_, rfl, rfl, ?_, ?_, rfl⟩ <;> intros <;> rfl
+  refine ⟨?_, ?_, ?_, ?_, rfl, rfl, ?_, ?_, rfl⟩ <;> intros <;> rfl
 
 /-- inplace_vector offers no assignment (known finding F-C01-inplace-vector-not-assignable): the
     histories of that type contain none -/
